@@ -283,6 +283,20 @@ theorem C11_used_code_replay (w : World) (f : Nat) (c : Cmd) (i : Nat) (cd : Cod
   · rfl
   · split <;> rfl
 
+/-! ### schedules -/
+
+/-- **A handler that outlives the executor's wait still acts for ITS connection**: whether the handler of a duplex
+command finishes within the executor's RPC wait or is still running when the wait times out — and then resumes while
+a command of any other connection `j` is being dispatched (`c.late = some j`) — what the command discloses, changes,
+pushes and answers (and to whom) is the same; in particular it is decided by the identity of the connection the
+command arrived on (`C11_main` holds for every value of `late`), never by the connection of the other command. -/
+theorem C11_schedule_independent (v : Variant) (w : World) (f : Nat) (c : Cmd) (l : Option Nat) :
+    exec v w f { c with late := l } = exec v w f c := rfl
+
+theorem C11_main_any_schedule (w : World) (f j : Nat) (c : Cmd) :
+    holds w f { c with late := some j } (exec .repaired w f { c with late := some j })
+      (exec .repaired w f ({ c with late := some j } : Cmd).strip) = true := C11_main w f _
+
 /-! ### connection histories -/
 
 /-- **The identity of a connection is its last successful authentication**: after any history of handshake steps
@@ -351,7 +365,7 @@ theorem C11_identity_keys : c11.identityKeys.map (·.1) =
 def wStd : World :=
   { conns := [⟨.auth, 1001, 0⟩, ⟨.auth, 1002, 0⟩, ⟨.auth, 1003, 0⟩, ⟨.unauth, 0, 0⟩, ⟨.bare, 0, 0⟩],
     maps := [⟨1001, 1002, true, true⟩, ⟨0, 1002, true, true⟩], codes := [], doms := [1001] }
-def cmdOf (ct : Nat) (m g d : Int) : Cmd := ⟨ct, false, "0", "0", "-", false, m, g, 0, d, 0, 0, 0⟩
+def cmdOf (ct : Nat) (m g d : Int) : Cmd := ⟨ct, false, "0", "0", "-", false, m, g, 0, d, 0, 0, 0, none⟩
 
 /-- traffic report for a mapping from a connection that never authenticated: the counters change -/
 theorem C11_witness_traffic_unauth :
@@ -437,6 +451,13 @@ example : exec .repaired wStd 3 { cmdOf 87 0 0 0 with snd := connName 0 } = Run.
 example : exec .repaired wStd 3 { cmdOf 86 0 0 0 with snd := connName 0 } = Run.failResp := by decide
 example : holds wStd 3 { cmdOf 87 0 0 0 with snd := connName 0 } (Run.okResp [.dom 0] [] []) Run.failResp = false := by decide
 example : holds wStd 3 { cmdOf 87 0 0 0 with snd := connName 0 } (Run.okResp [.dom 0] [] []) (Run.okResp [.dom 0] [] []) = false := by decide
+/-- the stalled HTTPDomainCreate of 1001 (connection 0) resumes while a command of 1002 (connection 1) is in flight: the
+domain is created for 1001; `holds` rejects the observation in which it was created for 1002 or answered to connection 1 -/
+example : exec .repaired wStd 0 { cmdOf 85 0 0 (-1) with late := some 1 } = Run.okResp [] [.newDom 1001] [] := by decide
+example : holds wStd 0 { cmdOf 85 0 0 (-1) with late := some 1 } ⟨true, .none, [], [.newDom 1002], [], []⟩
+    ⟨true, .none, [], [.newDom 1002], [], []⟩ = false := by decide
+example : holds wStd 0 { cmdOf 85 0 0 (-1) with late := some 1 } ⟨true, .none, [], [.newDom 1001], [⟨1, 0, none⟩], []⟩
+    ⟨true, .none, [], [.newDom 1001], [⟨1, 0, none⟩], []⟩ = false := by decide
 /-- cross-node DNS query (`handleDNSQueryCrossNode`): the authenticated sender on node 0 reaches the target on node 1
 through the state store / pool / listener, the pushed request names no sender; an unauthenticated sender reaches
 nobody; and `holds` rejects an observation in which the recipient was told a (claimed) sender -/
